@@ -199,6 +199,7 @@ def step (s : St) (ws : List String) : St × String :=
     let cfg : Cfg := { price := price, audit := audit }
     ({ cfg := cfg, node := initNode, started := true, hist := [(initNode.height, initNode)] }, s!"ok h={initNode.height}")
   | "block" :: rest => doBlock s rest
+  | ["propose", _] => (s, "ok")       -- harness bookkeeping of proposal references: nothing for the model
   | "reorg" :: hh :: rest =>
     -- the executor rolls the ledger back to height-1 and executes the new block in place of the old one
     match hh.toNat? with
